@@ -49,6 +49,9 @@ type estCase struct {
 	// History: the judged matrix is not the first thing computed on the alignment OBJECT (callers keep
 	// one object and edit it: mutate, mask, replace, shuffle, reverse complement, then compute again)
 	History *history `json:"history"`
+	// Plan: the alignment object is not freshly constructed but produced by a drawn chain of public
+	// operations ending on exactly Rows (internal/gen/provenance.go); nil = fresh
+	Plan *gen.Plan `json:"plan"`
 }
 
 // history of the alignment object before the judged call
@@ -81,6 +84,10 @@ func genEst(t *rapid.T) estCase {
 		po.Alpha = refdist.GenAlpha(t)
 		po.Weights = refdist.GenWeights(t, len(c.Prev[0]))
 		c.PrevOpt = &po
+	}
+	if rapid.IntRange(0, 3).Draw(t, "provenance") == 2 {
+		pl := gen.DrawPlan(t, distrun.Ali(c.Rows), "ACGT-", 3)
+		c.Plan = &pl
 	}
 	if rapid.IntRange(0, 4).Draw(t, "history") == 3 {
 		h := history{Kind: rapid.SampledFrom([]string{"set-char", "replace-char", "reverse-complement", "a-b-a"}).Draw(t, "history-kind")}
@@ -149,6 +156,16 @@ func classify(o *pbt.Outcome, opt refdist.Options, tier int, ref *refdist.Ref) {
 func checkEst(c estCase) (o pbt.Outcome, err error) {
 	ali := distrun.Ali(c.Rows)
 	al := gen.MustBuild(ali)
+	if c.Plan != nil {
+		if via, usable := gen.BuildVia(ali, *c.Plan); usable {
+			al = via
+			for _, k := range c.Plan.Kinds() {
+				o.Class("provenance:%s", k)
+			}
+		} else {
+			o.Class("provenance-unusable")
+		}
+	}
 	model, e := distrun.Model(c.Opt, c.ViaName)
 	if e != nil {
 		return o, fmt.Errorf("building the model fails for valid options: %v", e)
@@ -409,6 +426,10 @@ type cliCase struct {
 	// in the same file: the command computes one matrix per alignment with the same model object and the
 	// same --range1/--range2, whose maxima may lie beyond the smaller alignment (clipped per alignment)
 	Before []string `json:"before"`
+	// Layout of the FASTA input (wrapped lines, blanks, CRLF ...); Stale: the -o file exists already
+	// with a longer content of an earlier run
+	Layout cli.Layout `json:"layout"`
+	Stale  bool       `json:"stale"`
 }
 
 func genCLI(t *rapid.T) cliCase {
@@ -421,6 +442,10 @@ func genCLI(t *rapid.T) cliCase {
 	c.Threads = rapid.SampledFrom([]int{0, 1, 2, 4}).Draw(t, "threads")
 	c.Phylip = rapid.IntRange(0, 3).Draw(t, "phylip") == 0
 	c.ToFile = rapid.IntRange(0, 3).Draw(t, "tofile") == 0
+	c.Stale = c.ToFile && rapid.Bool().Draw(t, "stale-output-file")
+	if !c.Phylip {
+		c.Layout = cli.DrawLayout(t)
+	}
 	c.Average = rapid.IntRange(0, 5).Draw(t, "average") == 0
 	if c.Phylip && rapid.Bool().Draw(t, "two-alignments") {
 		c.Before, _ = refdist.GenRows(t, 2, 6, 30, c.Tier)
@@ -473,7 +498,7 @@ func TestCLI(t *testing.T) {
 			}
 			in = cli.TempFile(dir, ".phy", text)
 		} else {
-			in = cli.TempFile(dir, ".fa", cli.Fasta(rows))
+			in = cli.TempFile(dir, ".fa", cli.FastaLayout(rows, c.Layout))
 		}
 		defer os.Remove(in)
 		opt := c.Opt
@@ -506,6 +531,9 @@ func TestCLI(t *testing.T) {
 			outFile = in + ".out"
 			args = append(args, "-o", outFile)
 			defer os.Remove(outFile)
+			if c.Stale {
+				cli.StaleFile(outFile, 400) // must be replaced, not overwritten in part
+			}
 		}
 		r := cli.Run("", args...)
 		if r.TimedOut {
@@ -602,6 +630,12 @@ func TestCLI(t *testing.T) {
 		}
 		if c.ToFile {
 			o.Class("output-file")
+			if c.Stale {
+				o.Class("output-file existed with stale content")
+			}
+		}
+		if !c.Phylip && !c.Layout.Plain() {
+			o.Class("fasta input in another layout")
 		}
 		return o, nil
 	})
